@@ -85,6 +85,9 @@ class SSM(OneShotTask, DebugContents):
         self.apduTimeout = getattr(sap.localDevice, 'apduTimeout', sap.apduTimeout)
 
         self.segmentationSupported = getattr(sap.localDevice, 'segmentationSupported', sap.segmentationSupported)
+        # the side sending segments waits segmentTimeout for a segment ack, the
+        # side receiving them waits four times that for the next segment so
+        # the sender has time to retransmit (Clause 5.4)
         self.segmentTimeout = getattr(sap.localDevice, 'apduSegmentTimeout', sap.segmentTimeout)
         self.maxSegmentsAccepted = getattr(sap.localDevice, 'maxSegmentsAccepted', sap.maxSegmentsAccepted)
         self.maxApduLengthAccepted = getattr(sap.localDevice, 'maxApduLengthAccepted', sap.maxApduLengthAccepted)
@@ -537,7 +540,7 @@ class ClientSSM(SSM):
                 self.actualWindowSize = min(apdu.apduWin, self.ssmSAP.proposedWindowSize)
                 self.lastSequenceNumber = 0
                 self.initialSequenceNumber = 0
-                self.set_state(SEGMENTED_CONFIRMATION, self.segmentTimeout)
+                self.set_state(SEGMENTED_CONFIRMATION, self.segmentTimeout * 4)
 
         # some kind of problem
         elif (apdu.apduType == ErrorPDU.pduType) or (apdu.apduType == RejectPDU.pduType) or (apdu.apduType == AbortPDU.pduType):
@@ -608,7 +611,7 @@ class ClientSSM(SSM):
                 self.actualWindowSize = apdu.apduWin
                 self.lastSequenceNumber = 0
                 self.initialSequenceNumber = 0
-                self.set_state(SEGMENTED_CONFIRMATION, self.segmentTimeout)
+                self.set_state(SEGMENTED_CONFIRMATION, self.segmentTimeout * 4)
 
                 # send back a segment ack
                 segack = SegmentAckPDU( 0, 0, self.invokeID, self.initialSequenceNumber, self.actualWindowSize )
@@ -672,7 +675,7 @@ class ClientSSM(SSM):
             if _debug: ClientSSM._debug("    - segment %s received out of order, should be %s", apdu.apduSeq, (self.lastSequenceNumber + 1) % 256)
 
             # segment received out of order
-            self.restart_timer(self.segmentTimeout)
+            self.restart_timer(self.segmentTimeout * 4)
             segack = SegmentAckPDU(1, 0, self.invokeID, self.lastSequenceNumber, self.actualWindowSize)
             self.request(segack)
             return
@@ -698,7 +701,7 @@ class ClientSSM(SSM):
             if _debug: ClientSSM._debug("    - last segment in the group")
 
             self.initialSequenceNumber = self.lastSequenceNumber
-            self.restart_timer(self.segmentTimeout)
+            self.restart_timer(self.segmentTimeout * 4)
             segack = SegmentAckPDU(0, 0, self.invokeID, self.lastSequenceNumber, self.actualWindowSize)
             self.request(segack)
 
@@ -706,7 +709,7 @@ class ClientSSM(SSM):
             # wait for more segments
             if _debug: ClientSSM._debug("    - wait for more segments")
 
-            self.restart_timer(self.segmentTimeout)
+            self.restart_timer(self.segmentTimeout * 4)
 
     def segmented_confirmation_timeout(self):
         if _debug: ClientSSM._debug("segmented_confirmation_timeout")
@@ -1005,7 +1008,7 @@ class ServerSSM(SSM):
         # initialize the state
         self.lastSequenceNumber = 0
         self.initialSequenceNumber = 0
-        self.set_state(SEGMENTED_REQUEST, self.segmentTimeout)
+        self.set_state(SEGMENTED_REQUEST, self.segmentTimeout * 4)
 
         # send back a segment ack
         segack = SegmentAckPDU(0, 1, self.invokeID, self.initialSequenceNumber, self.actualWindowSize)
@@ -1041,7 +1044,7 @@ class ServerSSM(SSM):
             if _debug: ServerSSM._debug("    - segment %d received out of order, should be %d", apdu.apduSeq, (self.lastSequenceNumber + 1) % 256)
 
             # segment received out of order
-            self.restart_timer(self.segmentTimeout)
+            self.restart_timer(self.segmentTimeout * 4)
 
             # send back a segment ack
             segack = SegmentAckPDU(1, 1, self.invokeID, self.initialSequenceNumber, self.actualWindowSize)
@@ -1071,7 +1074,7 @@ class ServerSSM(SSM):
                 if _debug: ServerSSM._debug("    - last segment in the group")
 
                 self.initialSequenceNumber = self.lastSequenceNumber
-                self.restart_timer(self.segmentTimeout)
+                self.restart_timer(self.segmentTimeout * 4)
 
                 # send back a segment ack
                 segack = SegmentAckPDU(0, 1, self.invokeID, self.initialSequenceNumber, self.actualWindowSize)
@@ -1081,7 +1084,7 @@ class ServerSSM(SSM):
             # wait for more segments
             if _debug: ServerSSM._debug("    - wait for more segments")
 
-            self.restart_timer(self.segmentTimeout)
+            self.restart_timer(self.segmentTimeout * 4)
 
     def segmented_request_timeout(self):
         if _debug: ServerSSM._debug("segmented_request_timeout")
